@@ -119,7 +119,7 @@ def check_lifetime_sweep(ctx, cfg):
             continue
         ctx.ob(rule, b["key"], st, det, at=b["at"], cfg=cfg, frozen=False if st else True)
         n += 1
-    ctx.floor(rule, "reference-manufacturing functions with a reference result (%s)" % cfg, n, 23)
+    ctx.floor(rule, "reference-manufacturing functions with a reference result (%s)" % cfg, n, 4)
 
 
 def check_corpus(ctx):
